@@ -260,7 +260,7 @@ def gen_op(rng, allow_copy=True):
             else {j: rng.choice(['x', 'y']) for j in rng.sample(IDS, rng.randint(1, 2))}
         return ('set_attachment', a, val)
     if r < 0.72:
-        return ('att_setvalue', a, i, rng.choice(['x', 'y']))
+        return ('att_setvalue', a, i, rng.choice(['x', 'y', '']))
     if r < 0.76:
         return ('att_delvalue', a, i)
     if r < 0.79:
